@@ -12,6 +12,7 @@ fn main() {
     let stdin = std::io::stdin();
     let stdout = std::io::stdout();
     let mut out = std::io::BufWriter::new(stdout.lock());
+    let flush_each = std::env::var("HARNESS_FLUSH").is_ok();
     for line in stdin.lock().lines() {
         let line = match line {
             Ok(l) => l,
@@ -23,6 +24,9 @@ fn main() {
         }
         let ans = handle(t);
         writeln!(out, "{}", ans).unwrap();
+        if flush_each {
+            out.flush().unwrap();
+        }
     }
     out.flush().unwrap();
 }
